@@ -173,7 +173,11 @@ def recv_capacity_rule(res, fx, rule='RECV-CAPACITY'):
     for c in f.walk():
         if c['k'] != 'CXXMemberCallExpr' or not (c.get('q') or '').endswith('ByteBuffer::TruncateToLength') or c.receiver() is None or not c.args():
             continue
-        if not ft.et(c.args()[0]):
+        wire = set()
+        for g in f.walk():
+            if g.is_call() and (g.get('q') or '').endswith('::GetBodySize') and len(g.args()) >= 2:
+                wire |= ft.vars_in(g.args()[1])
+        if not (ft.vars_in(c.args()[0]) & wire) and not ft.et(c.args()[0]):
             continue           # a length that is not wire-declared (e.g. the byte count a packet read returned) fits by construction
         n += 1
         R = T.P_canon(c.receiver())
